@@ -225,6 +225,10 @@ pub fn redex_bodies(k: usize) -> Vec<(String, &'static str)> {
             v.push((format!("PUSH({x}) ~ PUSH({y}) ~ POP_ALL* ~ ANY ~ EOI"), "restore"));
             v.push((format!("PUSH({x}) ~ PUSH({y}) ~ POP? ~ PEEK ~ ANY?"), "restore"));
             v.push((format!("PUSH({x}) ~ PUSH({y}) ~ (POP | {x}) ~ POP? ~ PEEK_ALL?"), "restore"));
+            // repetitions whose iterations consume nothing yet change the stack (greedy: until the body fails)
+            v.push((format!("PUSH({x}) ~ PUSH({y}) ~ PUSH({x}) ~ DROP* ~ PEEK_ALL ~ EOI"), "restore"));
+            v.push((format!("PUSH({x}) ~ PUSH({y}) ~ PUSH({x}) ~ DROP+ ~ PUSH({y}) ~ PEEK_ALL ~ ANY?"), "restore"));
+            v.push((format!("PUSH(\"\") ~ PUSH({x}?) ~ PUSH(\"\") ~ POP* ~ PEEK_ALL ~ {y}?"), "restore"));
             // the same under the operators a traversal may forget to descend into: + (kept as such
             // under grammar-extras), PUSH, predicates, and node tags
             v.push((format!("PUSH({x}) ~ PUSH({y}) ~ (POP_ALL | {y})+ ~ ANY?"), "restore"));
